@@ -1,5 +1,8 @@
-// Package simtime stands in for "time" in the dependency's packages that read the wall clock
-// only to seed a PRNG (set, sort, symboltable): Now() is the simulator's clock.
+// Package simtime stands in for "time" under the order-and-clock-controlled engine: Now() is the
+// simulator's clock, everything else is the real package. It replaces the import in the
+// dependency's packages that seed PRNGs from the wall clock (set, sort, symboltable) and in
+// emerge's own packages, so that any output that depends on the time of the run differs between
+// two clock configurations deterministically.
 package simtime
 
 import (
@@ -12,6 +15,9 @@ type (
 	Duration = real.Duration
 	Month    = real.Month
 	Weekday  = real.Weekday
+	Location = real.Location
+	Timer    = real.Timer
+	Ticker   = real.Ticker
 )
 
 const (
@@ -21,15 +27,41 @@ const (
 	Second      = real.Second
 	Minute      = real.Minute
 	Hour        = real.Hour
+
+	RFC3339     = real.RFC3339
+	RFC3339Nano = real.RFC3339Nano
+	RFC1123     = real.RFC1123
+	RFC822      = real.RFC822
+	Kitchen     = real.Kitchen
+	DateTime    = real.DateTime
+	DateOnly    = real.DateOnly
+	TimeOnly    = real.TimeOnly
+	ANSIC       = real.ANSIC
+	UnixDate    = real.UnixDate
+	Stamp       = real.Stamp
 )
 
-// Time is the simulated instant.
-type Time struct{ ns int64 }
+var (
+	UTC   = real.UTC
+	Local = real.UTC // the simulated machine lives in UTC
+)
 
-func Now() Time                    { return Time{zz_simctl.NowNanos()} }
-func (t Time) UTC() Time           { return t }
-func (t Time) UnixNano() int64     { return t.ns }
-func (t Time) Unix() int64         { return t.ns / 1e9 }
-func (t Time) UnixMilli() int64    { return t.ns / 1e6 }
-func (t Time) Sub(u Time) Duration { return Duration(t.ns - u.ns) }
-func Since(t Time) Duration        { return Duration(zz_simctl.NowNanos() - t.ns) }
+// Time is a real time.Time whose value comes from the simulated clock.
+type Time = real.Time
+
+// Now reads the simulated clock (an instant in 2001, advancing a little on every read).
+func Now() Time { return real.Unix(1_000_000_000, zz_simctl.NowNanos()).UTC() }
+
+func Since(t Time) Duration     { return Now().Sub(t) }
+func Until(t Time) Duration     { return t.Sub(Now()) }
+func Unix(sec, nsec int64) Time { return real.Unix(sec, nsec) }
+func UnixMilli(ms int64) Time   { return real.UnixMilli(ms) }
+func Date(y int, m Month, d, h, mi, s, ns int, l *Location) Time {
+	return real.Date(y, m, d, h, mi, s, ns, l)
+}
+func Parse(layout, value string) (Time, error) { return real.Parse(layout, value) }
+func ParseDuration(s string) (Duration, error) { return real.ParseDuration(s) }
+func Sleep(d Duration)                         {} // simulated time: nothing to wait for
+func After(d Duration) <-chan Time             { c := make(chan Time, 1); c <- Now(); return c }
+func NewTimer(d Duration) *Timer               { return real.NewTimer(0) }
+func Tick(d Duration) <-chan Time              { return real.Tick(d) }
